@@ -2,7 +2,7 @@
    M = the node-vector trie of Model.v (what zipora calls Patricia storage), S = a duplicate-free list of keys. *)
 From ZV.Common Require Import Base Run.
 From ZV.C05 Require Import Model Spec ProofsBase ProofsInsert ProofsRemove ProofsRefine ProofsKeys ProofsLouds ProofsSpec ProofsClone.
-From ZV.C05 Require Import ModelFsa ModelDa ModelCs ModelAll ProofsFsa ProofsDaArr ProofsDaInv ProofsDaReloc ProofsDaReloc2 ProofsDaInsert ProofsDaKeys ProofsCs.
+From ZV.C05 Require Import SpecNoRemove ModelFsa ModelDa ModelCs ModelAll ProofsFsa ProofsDaArr ProofsDaInv ProofsDaReloc ProofsDaReloc2 ProofsDaInsert ProofsDaKeys ProofsCs.
 Open Scope N_scope.
 
 (* ptrie_refines_set: for EVERY history of insert / remove / contains / len / accepts / longest_prefix calls
@@ -362,3 +362,17 @@ Theorem cs_remove_refuted : exists ops, Forall op_ok ops /\ cs_run c_empty ops <
 Proof. exact cs_remove_refuted_proof. Qed.
 Check cs_remove_refuted : exists ops, Forall op_ok ops /\ cs_run c_empty ops <> s_run [] ops.
 Print Assumptions cs_remove_refuted.
+
+(* ------------------------------------------------------------------ histories WITH remove calls, as these two storages implement them
+   (ZiporaTrie::remove is `_ => Ok(false)`): every history - all eight op codes except the two enumerations, clone included -
+   behaves like the set in which remove changes nothing and answers false (SpecNoRemove.s_run_nr).  The distance to the
+   property is exactly the recorded finding (da_remove_refuted / cs_remove_refuted). *)
+Theorem da_refines_set_noop_remove : forall ops, Forall op_ok ops -> d_noerr_c d_empty ops = true -> d_run d_empty ops = s_run_nr [] ops.
+Proof. exact da_refines_set_noop_remove_proof. Qed.
+Check da_refines_set_noop_remove : forall ops, Forall op_ok ops -> d_noerr_c d_empty ops = true -> d_run d_empty ops = s_run_nr [] ops.
+Print Assumptions da_refines_set_noop_remove.
+
+Theorem cs_refines_set_noop_remove : forall ops, Forall op_ok ops -> cs_run c_empty ops = s_run_nr [] ops.
+Proof. exact cs_refines_set_noop_remove_proof. Qed.
+Check cs_refines_set_noop_remove : forall ops, Forall op_ok ops -> cs_run c_empty ops = s_run_nr [] ops.
+Print Assumptions cs_refines_set_noop_remove.
